@@ -43,6 +43,8 @@ try:
             a = sh("git", "-C", WT, "apply", d + "/patch.diff")
             if a.returncode != 0:
                 res.update(caught=None, reason="patch no longer applies to the current tree: " + a.stderr.strip()[:200])
+                if "superseded_by_fix" in meta:
+                    res["reason"] = "superseded: the code the seed edits was rewritten by fix " + meta["superseded_by_fix"]["commit"]
             else:
                 r = sh(f"{VERIF}/bin/wacheck", "check", pid, "--tier", "quick", cwd=VERIF, env=env)
                 out = r.stdout + r.stderr
@@ -60,4 +62,5 @@ try:
 finally:
     sh("git", "-C", "/repo", "worktree", "remove", "--force", WT)
 n = sum(1 for r in rows if r[1])
-print(f"{n}/{len(rows)} seeded changes caught")
+sup = sum(1 for r in rows if r[1] is None and r[2].startswith("superseded"))
+print(f"{n}/{len(rows) - sup} seeded changes caught" + (f" ({sup} superseded by a repair of the code they edit)" if sup else ""))
